@@ -89,6 +89,13 @@ Theorem C24_repeat_until_null_refuted :
 Proof. exact until_null_leaves_loop. Qed.
 Print Assumptions C24_repeat_until_null_refuted.
 
+(* ITERATE of a REPEAT whose body ends with a block: the forward jump from the first copy skips that block's ScopeEnd *)
+Theorem C24_iterate_repeat_scope_balance_refuted :
+  (exists st, exec 30 iterate_repeat_prog (init_state [] []) = (ONormal, st) /\ assocN 0%N (users st) = Some (Some 1))
+  /\ (exists st, call iterate_repeat_prog 100 [] [] = MDone st /\ assocN 0%N (users st) = Some (Some 2) /\ length (scopes st) = 2%nat).
+Proof. exact iterate_repeat_leaks_scope. Qed.
+Print Assumptions C24_iterate_repeat_scope_balance_refuted.
+
 (* ---------- guarded compiler correctness ----------
    [guard p]: p is built from blocks (unlabelled), DECLARE, SET, SET @u, IF (whose ELSE branch does not end with a block),
    WHILE, REPEAT (UNTIL syntactically non-NULL, not a target of ITERATE), LOOP (non-empty body not starting with a
